@@ -439,8 +439,9 @@ macro_rules! fixed_defect_harness {
             if second.kind == K_RATE_HINT {
                 assert!(d1 >= second.hint, "hinted wait must not be shorter than the hint");
             }
-            kani::cover!(first.kind == K_RATE_HINT, "first failure hinted");
-            kani::cover!(first.kind != K_RATE_HINT && second.kind != K_RATE_HINT, "both failures un-hinted");
+            // (covers over the second failure only: the regions constrain the first one)
+            kani::cover!(second.kind == K_RATE_HINT, "second failure hinted");
+            kani::cover!(second.kind != K_RATE_HINT, "second failure un-hinted");
             std::mem::forget(res);
         }
     };
